@@ -94,9 +94,10 @@ def seam_net(kinds=CLIENTS):
                                                           "gaps": [0.01], "start": 0.01}],
                 "ops": [{"at": 0.0, "op": "connect", "id": 0}], "cb": {}, "knobs": {"min_end": 1.0, "tail": 2.0, "max_end": 60.0}}
         o = net.run(plan)
-        if len(o.attempts) != 1:
-            return "client %s made %d connection attempts at the simulated gateway for one connect() (expected 1): it no longer " \
-                   "connects through asyncio.open_connection / serial_asyncio.open_serial_connection" % (kind, len(o.attempts))
+        if len(o.attempts) < 1:
+            # (more than one attempt is behaviour, not drift: the checks judge it)
+            return "client %s made no connection attempt at the simulated gateway for one connect(): it no longer " \
+                   "connects through asyncio.open_connection / serial_asyncio.open_serial_connection" % kind
     return None
 
 
